@@ -141,12 +141,49 @@ def h_1d(ctx, nl, nr, refine=0, fa=False, fv=True, reuse=False):
                   info=dict(info, state=k), replay=rp)
 
 
-def h_bsta1d(ctx, nl, nr, fa=False, lam_value=1, history=False, prefix="C01"):
+class WeightedMiddleGrid(GS.CTMCGrid):
+    """a grid that defines its cell boundaries itself, like CTMCGridProbabilityStep does (there: the point that halves the jump probability of
+    the gap): here the point x + w (y - x) with a weight w the solver chooses; next to the origin the boundary is -h/2 / h/2 as in the library"""
+
+    def __init__(self, w, **kw):
+        super().__init__(**kw)
+        self._w = w
+
+    def middle(self, xi, xip):
+        if not V.is_sym(xi) and xi == 0:
+            return self.h / 2
+        if not V.is_sym(xip) and xip == 0:
+            return -self.h / 2
+        return xi + self._w * (xip - xi)
+
+
+def replay_bsta1d_own_cells(sc):
+    """real HEM model on the real probability-step grid (its middle() is the probability mid point of a gap): law of the adapted tree over a
+    fine grid of uniforms against rate / intensity of the same chain's q-vector (which uses the grid's own cell boundaries)"""
+    model = concrete_models()["hem"]
+    grid = GS.CTMCGridProbabilityStep(h=0.05, model=model, minimum_probability_step=0.1)
+    proc = MC.MarkovChainProcess(model, SamplingMethod.BINARYSEARCHTREEADAPTED1D, grid)
+    q = np.asarray(SF.create_q_vector(proc.model.levy_triplet.nu, grid), dtype=float) / float(proc.intensity_of_jumps)
+    piv, n = grid.origin_coordinate.value, 100000
+    cnt = np.zeros(len(q))
+    for j in range(n):
+        cnt[int(proc.sampling.sample_with_u((j + 0.5) / n)) + piv] += 1
+    diff = np.abs(cnt / n - q)
+    k = int(np.argmax(diff))
+    return bool(diff[k] > 2e-3), (f"HEM on CTMCGridProbabilityStep(h=0.05, minimum_probability_step=0.1), {len(q)} states: the adapted tree sends measure {cnt[k] / n:.4f} of the "
+                                  f"uniforms to state {k - piv}, the chain's rate / intensity for that state is {q[k]:.4f} (largest difference {diff[k]:.4f})")
+
+
+def h_bsta1d(ctx, nl, nr, fa=False, lam_value=1, history=False, prefix="C01", own_cells=False):
     """adapted binary search tree (1-d): the u-measure of every state equals rate/intensity (C02 at chain level).
     history: another chain (another model, same grid) was built and sampled from earlier in the same interpreter"""
     axis, h, pivot = sym_axis(ctx, nl, nr)
     axis0 = list(axis)
     grid = make_grid(h, pivot, [axis])
+    if own_cells:
+        # the grid defines its own cell boundaries (weight w instead of 1/2): rates and samplers must both use the grid's cells
+        w = ctx.real("middle_weight", 0, 1, lo_strict=True, hi_strict=True)
+        grid = WeightedMiddleGrid(w, h=h, origin_coordinate=pivot, axes=[axis])
     if history:
         earlier = A.abs_levy_model(ctx, "mu", sigma=0.0, a=0.0, finite_activity=fa, finite_variation=True)
         try:
@@ -168,6 +205,9 @@ def h_bsta1d(ctx, nl, nr, fa=False, lam_value=1, history=False, prefix="C01"):
     smp = proc.sampling
     ax, piv = grid.axes[0], grid.origin_coordinate.value
     cs = cells(ax, piv)
+    if own_cells:
+        nn = len(ax)
+        cs = {k: (ax[0] if k == 0 else grid.middle(ax[k - 1], ax[k]), ax[nn - 1] if k == nn - 1 else grid.middle(ax[k], ax[k + 1])) for k in range(nn) if k != piv}
     u = ctx.real("u", 0, 1, hi_strict=True)
 
     def one():
@@ -178,7 +218,7 @@ def h_bsta1d(ctx, nl, nr, fa=False, lam_value=1, history=False, prefix="C01"):
         return int(s.sample_with_u(u))
 
     leaves = ctx.enumerate(one)
-    rp = (replay_bsta1d, scen_1d(ctx, nl, nr, 0, axis0))
+    rp = (replay_bsta1d, scen_1d(ctx, nl, nr, 0, axis0)) if not own_cells else (replay_bsta1d_own_cells, lambda m: {})
     for cons, val, exc in leaves:
         if exc is not None:
             ctx.prove(f"{prefix}.adapted_tree_1d.sampling_does_not_raise", False, info={"raised": repr(exc)[:200]}, replay=rp)
